@@ -56,6 +56,11 @@ pub fn check_request(states: [u8; 5], extras: u8) -> Result<(), String> {
             fields.push((":PROTOCOL".into(), "webtransport".into()));
             fields.push(("authority".into(), "a".into()));
             fields.push((":path/".into(), "/".into()));
+            // ordinary fields that carry the same information in HTTP/1.1 or plain HTTP/3 requests do not stand in either
+            fields.push(("host".into(), "example.com:4433".into()));
+            fields.push(("path".into(), "/".into()));
+            fields.push(("scheme".into(), "https".into()));
+            fields.push(("protocol".into(), "webtransport".into()));
         }
         _ => {}
     }
